@@ -15,6 +15,8 @@
 //!   {"a":"dialok","peer"} {"a":"dialfail","peer","k"}                  the oldest pending dial to peer succeeds / fails
 //!          k: transport | denied | noaddr | wrongpeer | aborted | local
 //!   {"a":"inconn","peer"} {"a":"close","c"}                            inbound connection established / connection closed
+//!   {"a":"dialdeny","peer"} {"a":"indeny","peer"}                      the connection is denied by another behaviour AFTER this one built
+//!                                                                      its handler (the handler is dropped unused; DialFailure(Denied) / ListenFailure)
 //!   {"a":"pollh","c"}                                                  ONE ConnectionHandler::poll of connection c
 //!   {"a":"outok","c"} {"a":"outfail","c","k":"neg|io|timeout"}         answer the oldest outstanding substream request of c
 //!   {"a":"inb","c","p"}                                                an inbound substream for protocol p: listen_protocol, then (if offered) FullyNegotiatedInbound
@@ -387,6 +389,35 @@ impl World {
                     self.beh.on_swarm_event(FromSwarm::DialFailure(DialFailure { peer_id: Some(self.peers[peer]), error: &e, connection_id: id }));
                 }
             }
+            "dialdeny" => {
+                let Some(id) = self.dials[peer].pop_front() else {
+                    self.evs.push(json!({"e": "skip"}));
+                    return;
+                };
+                let a = addr(peer, 99);
+                let h = self.beh.handle_established_outbound_connection(id, self.peers[peer], &a, Endpoint::Dialer, PortUse::New).expect("never denied");
+                self.evs.push(json!({"e": "dialfail", "peer": peer, "k": "denied-late"}));
+                drop(h);
+                let e = DialError::Denied { cause: ConnectionDenied::new(std::io::Error::other("scripted")) };
+                self.beh.on_swarm_event(FromSwarm::DialFailure(DialFailure { peer_id: Some(self.peers[peer]), error: &e, connection_id: id }));
+            }
+            "indeny" => {
+                let id = ConnectionId::new_unchecked(7000 + self.next_cid);
+                self.next_cid += 1;
+                let a = addr(peer, 98);
+                let local: Multiaddr = Multiaddr::empty().with(Protocol::Memory(1));
+                let h = self.beh.handle_established_inbound_connection(id, self.peers[peer], &local, &a).expect("never denied");
+                self.evs.push(json!({"e": "indeny", "peer": peer}));
+                drop(h);
+                let e = libp2p_swarm::ListenError::Denied { cause: ConnectionDenied::new(std::io::Error::other("scripted")) };
+                self.beh.on_swarm_event(FromSwarm::ListenFailure(libp2p_swarm::behaviour::ListenFailure {
+                    local_addr: &local,
+                    send_back_addr: &a,
+                    error: &e,
+                    connection_id: id,
+                    peer_id: Some(self.peers[peer]),
+                }));
+            }
             "inconn" => {
                 if self.conns.len() >= 6 {
                     self.evs.push(json!({"e": "skip"}));
@@ -531,6 +562,77 @@ impl World {
     }
 }
 
+/// Seeded random run generated ONLINE: every step is chosen among the steps that are possible in the current state
+/// (so that few steps are wasted); the concrete ops are recorded as the schedule, which replays identically.
+fn run_online(rng: &mut impl Rng, len: usize, peers: &[PeerId]) -> (Value, Vec<Value>) {
+    let mut w = World::new(peers);
+    let mut ops: Vec<Value> = vec![];
+    for _ in 0..len {
+        let peer = rng.gen_range(1..=NPEER);
+        let p = if rng.gen_bool(0.92) { rng.gen_range(0..2) } else { 2 };
+        let live = w.live_conns();
+        let mut cand: Vec<(u32, Value)> = vec![
+            (6, json!({"a": "accept", "p": p})),
+            (12, json!({"a": "open", "peer": peer, "p": p})),
+            (8, json!({"a": "pollbeh"})),
+            (4, json!({"a": "inconn", "peer": peer})),
+            (1, json!({"a": "indeny", "peer": peer})),
+        ];
+        if w.incs[p].is_some() {
+            cand.push((3, json!({"a": "dropinc", "p": p})));
+            cand.push((9, json!({"a": "recv", "p": p})));
+        }
+        if w.opens.iter().any(|o| o.fut.is_some()) {
+            cand.push((2, json!({"a": "cancel", "i": rng.gen_range(0..4)})));
+        }
+        if !w.dials[peer].is_empty() {
+            cand.push((8, json!({"a": "dialok", "peer": peer})));
+            cand.push((6, json!({"a": "dialfail", "peer": peer, "k": (["transport", "denied", "noaddr", "wrongpeer", "aborted", "local"][rng.gen_range(0..6)])})));
+            cand.push((1, json!({"a": "dialdeny", "peer": peer})));
+        }
+        if !live.is_empty() {
+            let k = rng.gen_range(0..live.len());
+            let ci = live[k];
+            cand.push((4, json!({"a": "close", "c": k})));
+            cand.push((12, json!({"a": "pollh", "c": k})));
+            cand.push((9, json!({"a": "inb", "c": k, "p": p})));
+            cand.push((3, json!({"a": "inb1", "c": k, "p": p})));
+            if !w.conns[ci].as_ref().unwrap().outstanding.is_empty() {
+                cand.push((10, json!({"a": "outok", "c": k})));
+                cand.push((7, json!({"a": "outfail", "c": k, "k": (["neg", "io", "timeout"][rng.gen_range(0..3)])})));
+            }
+        }
+        if w.inb_pending.iter().any(|x| x.is_some()) {
+            cand.push((4, json!({"a": "inb2", "k": rng.gen_range(0..3)})));
+        }
+        let total: u32 = cand.iter().map(|c| c.0).sum();
+        let mut x = rng.gen_range(0..total);
+        let mut chosen = cand[0].1.clone();
+        for (wgt, op) in cand {
+            if x < wgt {
+                chosen = op;
+                break;
+            }
+            x -= wgt;
+        }
+        ops.push(chosen.clone());
+        let r = guard(|| {
+            w.step(&chosen);
+            w.settle();
+        });
+        if let Err(msg) = r {
+            w.evs.push(json!({"e": "panic", "msg": msg}));
+            return (json!({"ops": ops}), std::mem::take(&mut w.evs));
+        }
+    }
+    if let Err(msg) = guard(|| w.drain()) {
+        w.evs.push(json!({"e": "panic", "msg": msg}));
+    }
+    let evs = std::mem::take(&mut w.evs);
+    let _ = guard(move || drop(w));
+    (json!({"ops": ops}), evs)
+}
+
 fn run(sched: &Value, peers: &[PeerId]) -> Vec<Value> {
     let mut w = World::new(peers);
     for op in sched["ops"].as_array().cloned().unwrap_or_default() {
@@ -590,7 +692,8 @@ fn random_op(rng: &mut impl Rng) -> Value {
         34..=43 => json!({"a": "pollbeh"}),
         44..=49 => json!({"a": "dialok", "peer": peer}),
         50..=54 => json!({"a": "dialfail", "peer": peer, "k": (["transport", "denied", "noaddr", "wrongpeer", "aborted", "local"][rng.gen_range(0..6)])}),
-        55..=59 => json!({"a": "inconn", "peer": peer}),
+        55..=58 => json!({"a": "inconn", "peer": peer}),
+        59 => json!({"a": (["dialdeny", "indeny"][rng.gen_range(0..2)]), "peer": peer}),
         60..=63 => json!({"a": "close", "c": rng.gen_range(0..4)}),
         64..=75 => json!({"a": "pollh", "c": rng.gen_range(0..4)}),
         76..=81 => json!({"a": "outok", "c": rng.gen_range(0..4)}),
@@ -643,12 +746,18 @@ fn main() {
             let runs = a.num(1);
             let mut out = Out::create(a.get(2));
             let mut rng = vcommon::rng(seed ^ 0x57e4a1);
-            for _ in 0..runs {
+            for k in 0..runs {
                 let len = rng.gen_range(6..45);
-                let ops: Vec<Value> = (0..len).map(|_| random_op(&mut rng)).collect();
-                let sched = json!({"ops": ops});
-                let evs = run(&sched, &peers);
-                emit(&mut out, &sched, evs);
+                if k % 4 == 3 {
+                    // blind schedules too (they also contain impossible steps, which are skipped)
+                    let ops: Vec<Value> = (0..len).map(|_| random_op(&mut rng)).collect();
+                    let sched = json!({"ops": ops});
+                    let evs = run(&sched, &peers);
+                    emit(&mut out, &sched, evs);
+                } else {
+                    let (sched, evs) = run_online(&mut rng, len, &peers);
+                    emit(&mut out, &sched, evs);
+                }
             }
             println!("runs={runs} events={}", out.events);
             out.finish();
